@@ -47,8 +47,21 @@ for c in man['checks']:
     t11.append(f"| {i} | {mods.get(i, '')} | {ev} | {sum(sd)}/{len(sd)} |" if sd else f"| {i} | {mods.get(i, '')} | {ev} | – |")
 for na in man.get('not_applicable', []):
     t11.append(f"| {na['property_id']} | {mods.get(na['property_id'], '')} | not claimed: {na['reason'][:120]} | – |")
+rounds = {}
+for m in sorted(glob.glob('/verif/seeded/*/meta.json')):
+    j = json.load(open(m)); n = os.path.basename(os.path.dirname(m)).split('-', 1)[1]
+    r = 1 if n.startswith('m') else int(n[1])
+    d = rounds.setdefault(r, {'n': 0, 'first': 0, 'after': 0, 'missed': []})
+    d['n'] += 1
+    if j.get('caught') and not j.get('missed_before_strengthening') and 'MISSED' not in (j.get('note') or ''): d['first'] += 1
+    elif j.get('caught'): d['after'] += 1
+    else: d['missed'].append(os.path.basename(os.path.dirname(m)))
+t14s = ["| round | seeded changes | caught by the check as it stood | caught after strengthening | still missed |", "|---|---|---|---|---|"]
+for r in sorted(rounds):
+    d = rounds[r]
+    t14s.append(f"| {r} | {d['n']} | {d['first']} | {d['after']} | {len(d['missed'])} {('(' + ', '.join(d['missed']) + ')') if d['missed'] else ''} |")
 s = open('/verif/DESIGN.md').read()
-for tag, rows in (('status', t11), ('fixes', t13), ('known', t13k), ('seeded', t14)):
+for tag, rows in (('status', t11), ('fixes', t13), ('known', t13k), ('seeded', t14), ('seedsummary', t14s)):
     a, b = f"<!-- GEN:{tag} -->", f"<!-- /GEN:{tag} -->"
     if a in s:
         s = s[:s.index(a) + len(a)] + "\n" + "\n".join(rows) + "\n" + s[s.index(b):]
